@@ -20,7 +20,7 @@ RULE = ("stratified + seeded random (configuration, sample) pairs, parameters ov
 REQUIRED = ["range_checked:fixed_alternative_mean", "range_checked:shrink_trunc", "range_checked:optimal_comparison",
             "range_checked:fixed_bet", "range_checked:agrapa", "strictly_above_mu_checked", "sign_entries_checked",
             "one_step_extensions", "regime:fixed_alternative_impossible", "regime:margin_below_rate", "regime:optimal_comparison_u_le_1",
-            "stratum:cap_binds_at_the_default_scale_then_zero", "stratum:very_small_null_mean", "stratum:null_mean_just_below_u", "bets_equal_to_the_cap_at_the_default_scale", "configurations_whose_bound_is_not_a_dyadic_rational"]
+            "stratum:cap_binds_at_the_default_scale_then_zero", "stratum:very_small_null_mean", "stratum:null_mean_just_below_u", "stratum:null_mean_lands_exactly_on_u", "bets_equal_to_the_cap_at_the_default_scale", "configurations_whose_bound_is_not_a_dyadic_rational"]
 ASSUMPTIONS = ["mu_j recomputed by an independent loop; 'mu_j < u' for the strict clause means mu_j < u(1 - 4 eps): the "
                "estimate is capped at u(1 - eps), so nothing can be strictly above a mean within an ulp or two of u", "fixed_bet's lambda is the user's; lambda <= 1/u is "
                "generated (the C01 quantifier)", "optimal_comparison mostly with u > 1 (comparison audits), u <= 1 in 20 % of its cases"]
@@ -49,6 +49,28 @@ def runs_sample(rng, cfg):
 def run_shard(spec, rec):
     rng = random.Random(f"c13-{spec['seed']}-{spec['shard']}")
     for i in range(spec["n"]):
+        if i % 16 == 12:
+            # the null conditional mean lands EXACTLY on u (the closed end of (0,u]) after high draws: N t - S_j = (N - j + 1) u
+            # with exactly representable numbers; the bet for that draw is still bound by 1/mu_j = 1/u
+            cfg = nn.gen_cfg(rng, combo=("betting_mart", None, "agrapa"), finite=True, allow_not_random=False)
+            for k in ("u_built", "N_warm", "int_dtype", "reused", "kw_built"):
+                cfg.pop(k, None)
+            cfg["u"], cfg["t"] = 1.0, rng.choice((0.875, 0.75, 0.9375))
+            N_ = rng.choice((4, 8, 16))
+            cfg["N"] = N_
+            r_ = rng.randint(1, max(1, int(N_ * (1 - cfg["t"]) * 2)))
+            S_ = N_ * cfg["t"] - r_
+            nb_ = N_ - r_
+            if S_ >= 0 and nb_ >= 1 and S_ <= nb_:
+                ones_ = int(S_)
+                body = [1.0] * ones_ + ([S_ - ones_] if S_ != ones_ else [])
+                body += [0.0] * (nb_ - len(body))
+                body.sort(reverse=True)                 # high draws first: the running mean stays above the null mean
+                x = body + [rng.choice((0.25, 0.0, 0.5))]
+                if nn.in_domain(cfg, x):
+                    rec.count("stratum:null_mean_lands_exactly_on_u")
+                    run_case({"cfg": cfg, "x": x, "stratum": "null_mean_exactly_u"}, rec)
+            continue
         if i % 16 == 13:
             # the null conditional mean climbs to just below u (within 1e-6, the band in which the tests set terms aside) but
             # stays below it: N/2 tiny positive draws at t = u/2.  "Strictly above mu_j wherever mu_j < u" is about the
